@@ -100,15 +100,16 @@ Ord(k) == CASE k = "VG" -> 1 [] k = "VD" -> 2 [] OTHER -> 3
 \* the code's `_del_item(k, thread_local=True)` raises for an unknown variable that is no longer set
 ExitRaises(t, sc) == \E k \in sc.keys : sc.old[k] = "NOTIMPL" /\ D(t, k) = "-" /\ ~Registered(k)
 
+\* exc: "" (normal), "exc" (an Exception), "sysexit" (SystemExit / KeyboardInterrupt: not an Exception)
 SwapExit(t, exc) ==
-  /\ scopes[t] # <<>>
+  /\ scopes[t] # <<>> /\ exc \in {"", "exc", "sysexit"}
   /\ LET sc == scopes[t][Len(scopes[t])]
          o2 == IF sc.withOvl THEN [ovl EXCEPT ![t] = SubSeq(@, 1, Len(@) - 1)] ELSE ovl
      IN
      /\ scopes' = [scopes EXCEPT ![t] = SubSeq(@, 1, Len(@) - 1)]
      /\ ovl' = o2
      /\ cache' = IF sc.keys = {} THEN cache ELSE NoCache
-     /\ act' = Lab("exit", t, "", IF exc THEN "exc" ELSE "", Empty, Empty)
+     /\ act' = Lab("exit", t, "", exc, Empty, Empty)
      /\ UNCHANGED glob
      /\ \/ loc' = [loc EXCEPT ![t] = ExactRestore(t, sc)] /\ res' = NoRes
         \/ /\ "Dev_RestoreWritesLocal" \in Deviations /\ ~ExitRaises(t, sc)
@@ -180,6 +181,15 @@ Drop(u) ==
   /\ act' = Lab("drop", u, "", "", Empty, Empty) /\ res' = NoRes
   /\ UNCHANGED <<glob, ovl, scopes>>
 
+\* the helper thread ends and a new one is started later (thread identifiers are recycled by the
+\* platform): the newcomer has entered no scope and must see the plain environment
+Respawn(u) ==
+  /\ u # "main" /\ scopes[u] = <<>> /\ ovl[u] = <<>>
+  /\ loc' = [loc EXCEPT ![u] = Empty]
+  /\ cache' = cache
+  /\ act' = Lab("respawn", u, "", "", Empty, Empty) /\ res' = NoRes
+  /\ UNCHANGED <<glob, ovl, scopes>>
+
 Init == /\ glob = [k \in Keys |-> IF k = "VG" THEN "g0" ELSE "-"]
         /\ loc = [t \in Threads |-> Empty] /\ ovl = [t \in Threads |-> <<>>]
         /\ scopes = [t \in Threads |-> <<>>] /\ cache = NoCache
@@ -188,7 +198,8 @@ Init == /\ glob = [k \in Keys |-> IF k = "VG" THEN "g0" ELSE "-"]
 Next == \E t \in Threads :
           \/ \E m \in Maps1 : SwapEnter(t, m, Empty, FALSE)
           \/ \E m \in OvlMaps, o \in Ovls : SwapEnter(t, m, o, TRUE)
-          \/ \E e \in BOOLEAN : SwapExit(t, e)
+          \/ \E e \in {"", "exc", "sysexit"} : SwapExit(t, e)
+          \/ Respawn(t)
           \/ \E k \in Keys, v \in SetVals : Set(t, k, v)
           \/ \E k \in Keys : Del(t, k)
           \/ \E k \in Keys, v \in OvlVals : OvlSet(t, k, v)
